@@ -516,6 +516,19 @@ def sec_extra(tier, seed, family):
         for perm in itertools.permutations(items):
             for mode in ("parse", "direct"):
                 check_header(sec, family, mode, list(perm), 0, ol)
+    if family == "mime":
+        # media ranges and offers with two parameters: parameters are a set, their order does not matter (seed C17-4)
+        two = [[("text/html;level=1;charset=utf-8", None), ("text/plain", "0.5")],
+               [("text/html;charset=utf-8;level=1", "0.8"), ("text/*", "0.3")],
+               [("application/json;a=1;b=2", "0"), ("application/*", "0.8")],
+               [("text/html;level=1;charset=utf-8", "0.5"), ("text/html;level=1", "0.8"), ("*/*", "0.001")]]
+        offs = ["text/html; charset=utf-8; level=1", "text/html;level=1;charset=utf-8", "text/plain", "application/json;b=2;a=1",
+                "application/json; a=1; b=2", "text/html;level=1"]
+        ol2 = [p_ for n_ in (1, 2) for p_ in itertools.permutations(offs, n_)]
+        for items in two:
+            for perm in itertools.permutations(items):
+                for mode in ("parse", "direct"):
+                    check_header(sec, family, mode, list(perm), 0, ol2)
     r = common.rng(seed, f"c17-{family}")
     n = 300 if tier == "quick" else 6000
     qpool = Q_VALID + ["0.8", "0.3"] + Q_INVALID[:4]
